@@ -320,14 +320,84 @@ def bfs(table, depth):
     return total
 
 
+# -- a transfer accepted under one login whose data connection is made after USER named another account -------------
+PTREE2 = {"A": {"same": b"A-CONTENT", "onlyA": b"a"}, "B": {"same": b"B-CONTENT", "onlyB": b"b"}}
+PTABLE2 = [M.UserSpec("alice", None, home="/A"), M.UserSpec("bob", "pw", home="/B"), M.UserSpec(None, home="/")]
+
+
+def run_pending(item):
+    """alice (no password) starts a transfer with a *relative* argument, the 150 is out, the data connection is not
+    made yet; then `USER bob` (331, password never sent) and only then the data connection: what is served, listed or
+    stored is alice's location or nothing at all - never bob's"""
+    verb, newuser, then_pass = item
+    from vf.conform import parse_names
+    part = report.Partial()
+    conf = Conf(PTABLE2, PTREE2)
+    spy = backends.SpyControl()
+    rig = conf.new_rig(spy=spy)
+    problems = []
+    try:
+        w = rig.world
+        for e in ("@connect", "USER alice", "EPSV"):
+            rig.ev(0, e)
+        # (no virtual time passes: the worker keeps waiting for its data connection)
+        r = rig.ev(0, verb, advance=0)
+        codes = [c for c, _ in (r or [])]
+        rig.ev(0, "USER " + newuser, advance=0)
+        if then_pass:
+            rig.ev(0, "PASS wrong", advance=0)
+        before = rig.snapshot()
+        rig.ev(0, "@data", advance=0)
+        s0 = rig.sessions[0]
+        v = verb.split(" ")[0]
+        if v in ("STOR", "APPE") and s0.data is not None:
+            rig.ev(0, "@dsend UPLOADED", advance=0)
+            rig.ev(0, "@dclose", advance=0)
+        w.settle(2)
+        rig.collect()
+        got = bytes(s0.data.received) if s0.data is not None else b""
+        after = rig.snapshot()
+        if newuser == "bob":
+            if b"B-CONTENT" in got or b"onlyB" in got:
+                problems.append({"kind": "served-from-the-account-whose-password-was-never-sent", "verb": verb,
+                                 "data": got.decode("latin-1")[:200]})
+            changed = [k for k in set(before) | set(after) if before.get(k) != after.get(k)]
+            if any(k.startswith("/B") for k in changed):
+                problems.append({"kind": "stored-into-the-account-whose-password-was-never-sent", "verb": verb,
+                                 "changed": changed})
+        if v in ("LIST", "MLSD") and got:
+            names = sorted(parse_names(v.lower(), got))
+            if names != ["onlyA", "same"]:
+                problems.append({"kind": "pending-listing-shows-another-directory", "verb": verb, "names": names})
+        if v == "RETR" and got and got != b"A-CONTENT":
+            problems.append({"kind": "pending-download-from-another-location", "verb": verb, "data": got.decode("latin-1")})
+        part.evaluations += 1
+        part.traces += 1
+        part.transitions += w.net.n_events
+        k = report.fp(["pending", verb, newuser, then_pass])
+        part.states.add(k)
+        part.nontrivial.add(k)
+        part.outcomes[report.fp(["pending", codes, bool(got)])] += 1
+        for p in problems[:1]:
+            part.violation({"kind": p["kind"], "verb": v, "pending_worker": True}, {"problem": p},
+                           replay={"pending": list(item)})
+    finally:
+        rig.close()
+    return part
+
+
 def run(tier, seed, t0):
     depth = 4 if tier == "quick" else 6
     parts = [bfs(t, depth) for t in TABLES]
     items = slow_items(tier)
     parts += report.pmap(slow_work, items)
+    parts += report.pmap(run_pending, [(v, u, tp) for v in ("MLSD", "LIST", "MLSD .", "LIST .", "RETR same", "STOR same",
+                                                            "APPE same", "STOR fresh", "MLSD ../A", "LIST ./")
+                                       for u in ("bob", "anonymous", "nobody") for tp in (False, True)])
     part = report.merge_all(parts)
     part.counters["slow_login_bursts"] = len(items)
-    bounds = {"tables": list(TABLES), "login_alphabet": LOGIN, "probes": len(PROBES), "spellings": 3, "depth": depth,
+    bounds = {"pending_transfer": "relative-path transfer accepted as alice, USER bob/anonymous/nobody (and a wrong PASS) before the data connection is made",
+              "tables": list(TABLES), "login_alphabet": LOGIN, "probes": len(PROBES), "spellings": 3, "depth": depth,
               "suspending_user_manager": {"pre_states": SLOW_PRE, "burst_alphabet": SLOW_BURST, "burst_length": "2..3",
                                           "deviation_bound": items[0][2], "deviation_kinds": ["order", "early"]}}
     return report.finish(
@@ -349,6 +419,10 @@ def replay(path):
         res = run_slow_burst(rp["slow"][0], rp["slow"][1], Chooser(rp["choices"], rp["kinds"]))
         print(json.dumps(res["problems"], indent=1, default=repr))
         return 1 if res["problems"] else 0
+    if "pending" in rp:
+        part = run_pending(tuple(rp["pending"]))
+        print(json.dumps([v["detail"] for v in part.violations], indent=1, default=repr))
+        return 1 if part.violations else 0
     if "pipelined" in rp:
         problems, nev = run_pipelined(*rp["pipelined"])
         print(json.dumps(problems, indent=1, default=repr))
